@@ -252,7 +252,13 @@ def _defs(ctx: Ctx, item):
             res, _ = check_frames(frames, data, None, d.pgn, src, m.destination if ((d.pgn >> 8) & 0xFF) < 240 else 255, prio, f"C03|defs|{fmt}")
             out = [(b, w, case) for b, w in res]
             dec = NMEA2000Decoder()
-            got = [feed(dec, fmt, p) for p in pk]
+            got = []
+            for p in pk:
+                try:
+                    got.append(feed(dec, fmt, p))
+                except Exception as e:
+                    out.append((f"C03|defs|{fmt}|decode-error", f"the decoder rejects frame {len(got)} of {len(pk)} of the encoder's own frames: {type(e).__name__}: {e}", case))
+                    return out
             if any(g is not None for g in got[:-1]) or got[-1] is None:
                 out.append((f"C03|defs|{fmt}|delivery", f"delivery pattern {[g is not None for g in got]}", case))
             else:
